@@ -442,6 +442,8 @@ def cases(draw, tier):
         case["tv"] = _nest(tvs, list(batch)) if batch else tvs[0]
     else:
         case["tv"] = None
+    if target == "root" and draw(st.integers(0, 2)) == 0:
+        case["via_root_inv"] = True
     case["jitter"] = None
     if target != "tridiag":
         case["jitter"] = draw(st.sampled_from([None, None, None, 1e-3, 0.0]))
@@ -665,7 +667,11 @@ def run_consumer(case, A_lib, Aref, V_lib, an, labels):
     op = to_linear_operator(A_lib)
     try:
         with state.apply_settings(cell), mock.patch.object(LZ, "lanczos_tridiag", wrapper):
-            if target == "root":
+            if target == "root" and case.get("via_root_inv"):
+                # the root that a Lanczos root_inv_decomposition caches as its by-product (same Lanczos run, argument-less key)
+                op.root_inv_decomposition(method="lanczos")
+                res = op.root_decomposition().root.to_dense()
+            elif target == "root":
                 res = op.root_decomposition(method="lanczos").root.to_dense()
             elif target == "root_inv":
                 res = op.root_inv_decomposition(initial_vectors=V_lib, test_vectors=tv, method="lanczos").root.to_dense()
